@@ -19,8 +19,8 @@ CONSTANT SquaredWeights      \* the response carries a weighted_squared_count me
 \* the base a column proportion is tested with
 PwBase(tk, re, ce) ==
   IF SquaredWeights
-  THEN ColDiffNaN(ce, Div(Sq(R(ColBase(tk, re, ce, WS))), R(ColBase(tk, re, ce, "w2"))))
-  ELSE ColDiffNaN(ce, R(ColBase(tk, re, ce, "n")))
+  THEN ColDiffNaN(ce, Div(Sq(RSt(ColBase(tk, re, ce, WS), WS)), RSt(ColBase(tk, re, ce, "w2"), "w2")))
+  ELSE ColDiffNaN(ce, RSt(ColBase(tk, re, ce, "n"), "n"))
 
 PwVar(tk, re, ce) ==
   LET p == ColProp(tk, re, ce) IN Div(Mul(p, Sub(One, p)), PwBase(tk, re, ce))
@@ -37,7 +37,7 @@ PwDF(tk, re, ca, cb) == Sub(Add(PwBase(tk, re, ca), PwBase(tk, re, cb)), R(2))
 \* --- means (Welch) ---------------------------------------------------------------
 \* the standard deviation the response carries for a cell (Payload!CellStd), squared
 CellS2(tk, re, ce) == Sq(YStat("stddev", Co(tk, re, ce)))
-CellNv(tk, re, ce) == R(Count(tk, re, ce, "n"))
+CellNv(tk, re, ce) == RSt(Count(tk, re, ce, "n"), "n")
 MeanOf(tk, re, ce) == YStat("mean", Co(tk, re, ce))
 WelchA(tk, re, ce) == Div(CellS2(tk, re, ce), CellNv(tk, re, ce))
 
@@ -72,7 +72,7 @@ OvWt(tk, re, a, b, valid) ==
     ELSE 0)
 OvP(tk, re, a, b) == Div(R(OvWt(tk, re, a, b, FALSE)), R(OvWt(tk, re, a, b, TRUE)))
 OvDF(tk, re, a, b) ==
-  R(OvWt(tk, re, a, a, TRUE) + OvWt(tk, re, b, b, TRUE) - OvWt(tk, re, a, b, TRUE))
+  RSt(OvWt(tk, re, a, a, TRUE) + OvWt(tk, re, b, b, TRUE) - OvWt(tk, re, a, b, TRUE), WS)
 
 PwOvT(tk, re, ca, cb) ==
   LET a == ca.item  b == cb.item IN
